@@ -13,7 +13,18 @@ var (
 	errNotFound       = errors.New("not found")
 	errGone           = errors.New("gone")
 	ErrAtoInfTimeline = errors.New("infinite availabilityTimeOffset for SegmentTimeline")
+	// errBadConfig is a URL configuration that cannot be applied to the requested asset
+	errBadConfig = errors.New("configuration not applicable")
 )
+
+// badConfigError is an errBadConfig with its own message.
+type badConfigError struct {
+	msg string
+}
+
+func (e badConfigError) Error() string { return e.msg }
+
+func (e badConfigError) Is(target error) bool { return target == errBadConfig }
 
 type errTooEarly struct {
 	deltaMS int
